@@ -342,7 +342,8 @@ func VerifC09_AcceptGrammar() {
 	rt.Observe("format", uint64(got))
 	rt.Assert(got == want, "acceptgrammar/format-follows-the-documented-rule")
 	// and the response side names an encoding the load side understands
-	if want != AUTO {
+	// (for up to two entries: the third multiplies the paths without reaching new code)
+	if want != AUTO && n <= 2 {
 		v := symValue()
 		data, mimeType, format, err := MimeDump(v, accept)
 		if err == nil {
